@@ -15,14 +15,14 @@ import (
 )
 
 type panicOb struct {
-	in     ssa.Instruction
-	fn     *ssa.Function
-	kind   string // index, slice, forceunwrap, typeassert, divide, make, stdlib, panic, close
-	desc   string // human description of the construct
-	key    string // stable key within function
-	ok     bool
-	why    string
-	inGo   bool // runs in a bare goroutine (process-fatal)
+	in   ssa.Instruction
+	fn   *ssa.Function
+	kind string // index, slice, forceunwrap, typeassert, divide, make, stdlib, panic, close
+	desc string // human description of the construct
+	key  string // stable key within function
+	ok   bool
+	why  string
+	inGo bool // runs in a bare goroutine (process-fatal)
 }
 
 // untrusted-input roots (fnKey)
